@@ -201,8 +201,21 @@ fn check_transition(m: &Metadata, before: &Value, result: &Result<bytes::Bytes, 
     Ok(after)
 }
 
-fn snapshot_roundtrip(m: &Metadata, state: &Value, suffix: &[Vec<u8>]) -> Result<(), String> {
+fn snapshot_roundtrip(m: &Metadata, state: &Value, suffix: &[Vec<u8>], priors: &[Vec<u8>]) -> Result<(), String> {
     let snap = m.snapshot();
+    // a snapshot is installed into replicas that lag behind: their state is the one after some prefix of the sender's history
+    for (k, prior) in priors.iter().enumerate() {
+        let m3 = Metadata::new();
+        m3.restore(prior).map_err(|e| format!("restore of a prefix snapshot failed: {e}"))?;
+        m3.restore(&snap).map_err(|e| format!("install into a lagging replica failed: {e}"))?;
+        let mut na: Vec<(u64, String)> = m.all_node_addrs();
+        let mut nb: Vec<(u64, String)> = m3.all_node_addrs();
+        na.sort();
+        nb.sort();
+        if canon(&m3).as_ref() != Some(state) || na != nb {
+            return Err(format!("snapshot installed into a lagging replica (state after the first {k} commands of the sender's history) differs from the sender's state"));
+        }
+    }
     let m2 = Metadata::new();
     m2.restore(&snap).map_err(|e| format!("restore of own snapshot failed: {e}"))?;
     let c2 = canon(&m2).ok_or("restored state unreadable")?;
@@ -280,6 +293,7 @@ pub fn meta(a: &[String]) {
     let mut nc20 = 0u64;
     let mut transitions = 0u64;
     let mut snapshots_checked = 0u64;
+    let mut lagging_installs = 0u64;
     let mut rejected = 0u64;
     // ---- exhaustive BFS over command sequences up to `depth`, pruned by canonical state
     let mut seen: HashMap<String, Vec<usize>> = HashMap::new();
@@ -337,7 +351,18 @@ pub fn meta(a: &[String]) {
                             p.push(i);
                             seen.insert(key, p.clone());
                             snapshots_checked += 1;
-                            if let Err(e) = snapshot_roundtrip(&m, &after, &suffix) {
+                            // states after every proper prefix of this history: the lagging receivers
+                            let mut priors: Vec<Vec<u8>> = vec![];
+                            {
+                                let mp = Metadata::new();
+                                priors.push(mp.snapshot());
+                                for &j in path {
+                                    let _ = catch_unwind(AssertUnwindSafe(|| mp.apply(&alpha[j].1)));
+                                    priors.push(mp.snapshot());
+                                }
+                            }
+                            lagging_installs += priors.len() as u64;
+                            if let Err(e) = snapshot_roundtrip(&m, &after, &suffix, &priors) {
                                 nc20 += 1;
                                 if c20_violations.len() < 10 {
                                     c20_violations.push(json!({"cls": "snapshot-restore", "what": e, "sequence": seq()}));
@@ -366,7 +391,12 @@ pub fn meta(a: &[String]) {
         let mut before = canon(&m).unwrap();
         let mut trace: Vec<String> = vec![];
         let all_names: Vec<String> = topics.iter().map(|s| s.to_string()).collect();
+        // snapshots of a few intermediate states: the lagging receivers of the final snapshot
+        let mut rprior: Vec<Vec<u8>> = vec![m.snapshot()];
         for _ in 0..len {
+            if rprior.len() < 6 && r.below(40) == 0 {
+                rprior.push(m.snapshot());
+            }
             let (label, cmd) = match r.below(10) {
                 0 | 1 => {
                     let t = topics[r.below(topics.len() as u64) as usize];
@@ -450,7 +480,8 @@ pub fn meta(a: &[String]) {
             continue;
         }
         snapshots_checked += 1;
-        if let Err(e) = snapshot_roundtrip(&m, &before, &suffix) {
+        lagging_installs += rprior.len() as u64;
+        if let Err(e) = snapshot_roundtrip(&m, &before, &suffix, &rprior) {
             nc20 += 1;
             if c20_violations.len() < 10 {
                 c20_violations.push(json!({"cls": "snapshot-restore", "what": e, "random_sequence_tail": trace, "seed": seed, "sequence_index": s}));
@@ -467,7 +498,7 @@ pub fn meta(a: &[String]) {
         "{}",
         json!({"mode": "meta", "depth": depth, "alphabet": alpha.len(), "distinct_states": seen.len(), "states_per_level": levels, "exhaustive": exhaustive,
                "transitions": transitions, "rejected_commands": rejected, "random_sequences": nrandom, "random_commands": random_cmds, "random_byte_strings": random_bytes,
-               "snapshots_checked": snapshots_checked, "violations": nviol, "panics": npanic, "c20_violations": nc20,
+               "snapshots_checked": snapshots_checked, "lagging_installs": lagging_installs, "violations": nviol, "panics": npanic, "c20_violations": nc20,
                "violation_samples": violations, "c20_violation_samples": c20_violations, "samples": samples})
     );
 }
